@@ -288,6 +288,7 @@ func init() {
 		ID:    "C20",
 		Level: "exploration",
 		Rule: "seeded cluster runs (7-9 real nodes, 10-23 deposits + transfers so that chains advance several rounds and reference each other) under swarm network faults, clock skew, crash/restart and (half of the runs) a Byzantine relay that rewrites the references of announcements to self/stale/unknown/regressing rounds and re-signs them; every StartNewRound/UpdateEmptyHeadRound is judged against pre/post durable state, and every chain's head/link fingerprint is compared after each step; " +
+			"half of the runs are finalized-path runs: an injected multi-chain history (18-27 snapshots) with 4-6 validly certified snapshots whose references are stale / name the own chain / mismatch the previous round / redirect an empty head round to a stale round, each sent to one victim that is restarted afterwards, and (60%) a strict-path proposal whose external round is six hours older than the best candidate; " +
 			"non-trivial = at least one round transition observed; distinct = canonical-log digests",
 		Components: clusterComponents,
 		Assume:     clusterAssume,
